@@ -5,7 +5,13 @@
 package c01
 
 import (
+	"context"
 	"fmt"
+
+	"github.com/risor-io/risor/ast"
+	"github.com/risor-io/risor/parser"
+
+	"verif/internal/astdump"
 	"sync"
 	"sync/atomic"
 
@@ -88,6 +94,53 @@ func One(r *ev.Run, env *rt.Env, p progen.Program, stats *Stats) {
 	r.Report(sig, fmt.Sprintf("%s\n  %s", src, detail), replayIn{p.Fam, src}, detail, "agreement with the reference interpreter")
 }
 
+// OneShape checks the parse tree of a flat operator sequence against the model's parse.
+func OneShape(r *ev.Run, p progen.Program) {
+	src := p.Src()
+	want := progen.Dump(p.Prog[len(p.Prog)-1].A[0])
+	r.Eval(1)
+	got, perr := parseDump(src)
+	r.Outcome("F1shape|" + want)
+	if perr != "" {
+		r.Report("F1shape:valid-rejected:"+shapeClass(src), fmt.Sprintf("%s\n  the rules give %s; the parser says: %s", src, want, perr), replayIn{p.Fam, src}, perr, want)
+		return
+	}
+	if got != want {
+		r.Report("F1shape:wrong-tree:"+shapeClass(src), fmt.Sprintf("%s\n  parsed as %s, the precedence rules give %s", src, got, want), replayIn{p.Fam, src}, got, want)
+	}
+}
+
+func shapeClass(src string) string {
+	for i := 0; i < len(src); i++ {
+		if src[i] == '?' {
+			return "ternary"
+		}
+	}
+	return "infix"
+}
+
+func parseDump(src string) (dump, perr string) {
+	defer func() {
+		if e := recover(); e != nil {
+			perr = fmt.Sprint("GO PANIC: ", e)
+		}
+	}()
+	prog, err := parser.Parse(context.Background(), src)
+	if err != nil {
+		return "", err.Error()
+	}
+	sts := prog.Statements()
+	if len(sts) != 1 {
+		return "", fmt.Sprintf("parsed into %d statements", len(sts))
+	}
+	var n ast.Node = sts[0]
+	d, ok := astdump.Expr(n)
+	if !ok {
+		return d, ""
+	}
+	return d, ""
+}
+
 type Stats struct {
 	NonTerm, Unspec, Rejected, Errors, Values, InvalidAccepted int64
 }
@@ -126,6 +179,25 @@ func Check(r *ev.Run, replay string) {
 		}
 		Pool(func(y func(progen.Program)) { progen.F2(n, filter, y) }, run)
 	}
+	// F1 operators: parse shapes, then values
+	shapeOps, valOps, valPool := 3, 2, 6
+	if r.Thorough() {
+		shapeOps, valOps, valPool = 4, 3, 5
+	}
+	Pool(func(y func(progen.Program)) { progen.F1Shapes(shapeOps, y) }, func(env *rt.Env, p progen.Program) { OneShape(r, p) })
+	for n := 1; n <= valOps; n++ {
+		pool := progen.ValuePool(9)
+		if n == 2 {
+			pool = progen.ValuePool(valPool + 1)
+		}
+		if n >= 3 {
+			pool = progen.ValuePool(valPool)
+		}
+		Pool(func(y func(progen.Program)) { progen.F1Values(n, pool, y) }, run)
+	}
+	Pool(func(y func(progen.Program)) { progen.F1Prefix(progen.ValuePool(9), y) }, run)
+	r.Set("f1_shape_max_operators", shapeOps)
+	r.Set("f1_value_max_operators", valOps)
 	r.Set("f2_node_budget_all", maxAll)
 	r.Set("f2_node_budget_ctrl_under_switch_in_loop", maxFiltered)
 	r.Set("invalid_programs_accepted_by_impl_not_a_violation", int(st.InvalidAccepted))
